@@ -251,7 +251,11 @@ let handle (x : Sexp.t) : string =
                           directly takes the output's name, as it did before the alias lines existed *)
                        if writer_variant.w_no_array_alias && (match type_of (g1 sym) with TArr _ -> true | _ -> false) && List.mem sym roots
                        then note "names:states:array-referenced-by-label"
-                       else if String.contains a '$' then note "names:states:dollar-cleanup" else if drift a b then note "names:states:suffix-drift" else note "names:states:other"
+                       else if String.contains a '$' then note "names:states:dollar-cleanup"
+                       else if drift a b && List.exists (fun p -> String.length a > String.length p && String.sub a 0 (String.length p) = p)
+                                 ["_state_"; "_input_"; "_output_"; "_bad_"; "_constraint_"]
+                       then note "names:states:default-name-collision"
+                       else if drift a b then note "names:states:suffix-drift" else note "names:states:other"
                    | None -> ());
                   (match first_diff o1 o2 po with
                    | Some (_, _, _, false) -> note "names:lost:output"
